@@ -75,6 +75,145 @@ func runC01API() {
 		groups = append(groups, [2]int{i, j})
 	}
 	parallel(0, len(groups), 3, func(g int) { c01Life(c, groups[g][0], groups[g][1]) })
+	// requests issued while a teardown is provably in progress (its DESTROY hook is held at a gate)
+	nTd := 4
+	if c.Tier == "thorough" {
+		nTd = 32
+	}
+	tlo, thi := c.Slice(nTd)
+	if os.Getenv("VERIF_ONLY") != "" {
+		tlo, thi = 0, 0
+	}
+	parallel(tlo, thi, 4, func(i int) { c01DuringTeardown(c, i) })
+}
+
+// c01DuringTeardown: the environment's DESTROY hook blocks at a gate file, so the teardown is in progress for
+// as long as the driver wants. A control request issued in that window has to wait for the teardown
+// ("concurrent requests are executed one after the other, each one seeing the state left by the previous
+// one"): it must not return before the gate is opened, and what it then sees is a destroyed environment.
+func c01DuringTeardown(c *vlib.Ctx, idx int) {
+	states := []string{"CONFIGURED", "RUNNING", "CONFIGURED", "DEPLOYED"}
+	reqs := []pb.ControlEnvironmentRequest_Optype{pb.ControlEnvironmentRequest_START_ACTIVITY, pb.ControlEnvironmentRequest_STOP_ACTIVITY, pb.ControlEnvironmentRequest_RESET, pb.ControlEnvironmentRequest_CONFIGURE}
+	st, op := states[idx%4], reqs[(idx/4+idx)%4]
+	desc := map[string]interface{}{"kind": "request-during-teardown", "index": idx, "state": st, "request": op.String()}
+	id := c.Case(desc)
+	c.Nontrivial(vlib.Hash("c01td", st, op.String()))
+	cls := "during-teardown/" + st + "/" + op.String()
+	dir := os.Getenv("TMPDIR")
+	if dir == "" {
+		dir = os.TempDir()
+	}
+	gate := fmt.Sprintf("%s/c01-gate-%d-%d", dir, c.Batch, idx)
+	os.Remove(gate)
+	defer os.Remove(gate)
+	wfName := fmt.Sprintf("c01td%d", idx)
+	wf := coresim.WorkflowSpec{Name: wfName, Hosts: []string{"host1"}, Defaults: map[string]string{"deploy_timeout": "60s"},
+		Tasks: []coresim.TaskSpec{{Name: "a", Host: "host1", Critical: true, Mode: "direct"}},
+		Calls: []coresim.CallSpec{{Name: "dh", Func: "verif.Slow()", Trigger: "DESTROY", Critical: false, Timeout: "60s", Vars: map[string]string{"verif_tag": "td-gate", "verif_gate": gate}}}}
+	s, err := coresim.Start(coresim.Options{Agents: stdAgents(2), Detectors: stdDetectors(2), Files: wf.Files()})
+	if err != nil {
+		c.Inconclusive("coresim start: " + truncate(err.Error(), 3000))
+		return
+	}
+	obs := map[string]interface{}{"case": desc}
+	defer func() {
+		os.WriteFile(gate, []byte("x"), 0o644)
+		finishSim(c, s, id, obs)
+		s.Close()
+	}()
+	api := 90 * time.Second
+	ctx, cancel := coresim.Ctx(api)
+	r, err := s.Client.NewEnvironment(ctx, &pb.NewEnvironmentRequest{WorkflowTemplate: wfName, Vars: map[string]string{}})
+	cancel()
+	if err != nil {
+		c.Inconclusive("fault-free creation failed: " + grpcMsg(err))
+		return
+	}
+	envID := r.GetEnvironment().GetId()
+	control := func(o pb.ControlEnvironmentRequest_Optype) error {
+		ctx, cancel := coresim.Ctx(api)
+		defer cancel()
+		_, err := s.Client.ControlEnvironment(ctx, &pb.ControlEnvironmentRequest{Id: envID, Type: o})
+		return err
+	}
+	switch st {
+	case "RUNNING":
+		if control(pb.ControlEnvironmentRequest_START_ACTIVITY) != nil {
+			c.Inconclusive("fault-free START failed")
+			return
+		}
+	case "DEPLOYED":
+		if control(pb.ControlEnvironmentRequest_RESET) != nil {
+			c.Inconclusive("fault-free RESET failed")
+			return
+		}
+	}
+	destroyed := make(chan error, 1)
+	go func() {
+		ctx, cancel := coresim.Ctx(api)
+		defer cancel()
+		_, err := s.Client.DestroyEnvironment(ctx, &pb.DestroyEnvironmentRequest{Id: envID, Force: true, AllowInRunningState: true})
+		destroyed <- err
+	}()
+	// the teardown is in progress once its DESTROY hook has started
+	started := false
+	for dl := time.Now().Add(30 * time.Second); time.Now().Before(dl) && !started; time.Sleep(10 * time.Millisecond) {
+		for _, rec := range s.PluginRecords() {
+			if rec.Tag == "td-gate" && rec.Phase == "start" {
+				started = true
+			}
+		}
+	}
+	if !started {
+		c.Inconclusive("the DESTROY hook did not start within 30 s")
+		return
+	}
+	c.Count("teardowns_held_open", 1)
+	type reply struct {
+		err   error
+		state string
+	}
+	answered := make(chan reply, 1)
+	go func() {
+		ctx, cancel := coresim.Ctx(api)
+		defer cancel()
+		rr, err := s.Client.ControlEnvironment(ctx, &pb.ControlEnvironmentRequest{Id: envID, Type: op})
+		answered <- reply{err, rr.GetState()}
+	}()
+	early := false
+	var rep reply
+	select {
+	case rep = <-answered:
+		early = true
+	case <-time.After(700 * time.Millisecond):
+	}
+	stDuring, _ := envState(s, envID)
+	obs["state_during_teardown"] = stDuring
+	os.WriteFile(gate, []byte("x"), 0o644) // the teardown may finish now
+	if !early {
+		select {
+		case rep = <-answered:
+		case <-time.After(api):
+			c.Violation("HANG", cls, "the request issued during the teardown did not return after the teardown had finished", id, obs)
+			return
+		}
+	}
+	derr := <-destroyed
+	obs["request_err"], obs["request_reply_state"], obs["destroy_err"] = grpcMsg(rep.err), rep.state, grpcMsg(derr)
+	c.Count("requests_during_teardown", 1)
+	if early {
+		c.Violation("SERIAL", cls+"/request-answered-while-teardown-in-progress", fmt.Sprintf("%s issued while the teardown of the environment was in progress (its DESTROY hook was blocked) was answered (%q, state %q) before the teardown could finish: it did not wait for the activity in progress", op, grpcMsg(rep.err), rep.state), id, obs)
+		return
+	}
+	if stDuring != "" && stDuring != st && stDuring != "DONE" {
+		c.Violation("GRAPH", cls+"/state-changed-during-teardown", fmt.Sprintf("the environment was %s when its teardown started and reported %s while the teardown was in progress", st, stDuring), id, obs)
+	}
+	if rep.err == nil {
+		c.Violation("SERIAL", cls+"/request-succeeded-on-destroyed-environment", fmt.Sprintf("%s issued during the teardown succeeded (state %q) after the environment was destroyed", op, rep.state), id, obs)
+	}
+	if after, aerr := envState(s, envID); aerr == nil && after != "DONE" {
+		c.Violation("GRAPH", cls+"/not-DONE-after-teardown", "after the teardown the environment is listed in state "+after, id, obs)
+	}
 }
 
 func c01Life(c *vlib.Ctx, lo, hi int) {
